@@ -487,7 +487,12 @@ def run_hashes(ctx, quick, keys, model_cases):
         check_hash(ctx, h, False, keys, model_cases)
     ctx.extra['hashes'] = len(hs)
     # not colours: must not be treated as such by the model either
-    for h in ('#ab', '#abcd', '#abcde', '#abcdefa', '#abg', '#'):
+    import cssutils.css.value as V_
+    import cssutils.prodparser as PP_
+    for h in ('#ab', '#abcd', '#abcde', '#abcdefa', '#abg', '#', '#fff\n', '#abcdef\n', '#fff ', '#fff\r', '\n#fff', '#ffffff\n\n', '#FFF\x0c'):
+        ctx.case(('hash-invalid', h))
+        if V_.reHexcolor.match(h) and PP_.PreDef.reHexcolor.match(h):
+            ctx.violation('hash-accepts-noncolour', {'text': h}, 'both reHexcolor patterns accept %r as a colour' % h, KNOWN_PRED)
         model_cases.append([182, 1] + s2n(h))
         keys.append(('hash-invalid', {'text': h}, [0]))
 
